@@ -101,3 +101,132 @@ Proof.
     + unfold with_item in E. destruct (nth_error (s_items s) z) as [it|] eqn:Hn; [destruct (i_live it)|]; try (injection E as <-; mtx_leaf).
       injection E as <-. eapply mtx_rel_upd; [eassumption | cbn [r_st]; rewrite set_pc_items; apply delete_item_items | auto].
 Qed.
+
+Definition pc_in_mtx (p : pc) (i : iid) : bool :=
+  match p with PAcqCheck j _ _ _ | PAcqCtor j _ _ | PAcqUnlock j => Nat.eqb i j | _ => false end.
+
+Definition MInv (s : state) : Prop :=
+  forall t th i, nth_error (s_thr s) t = Some th -> pc_in_mtx (t_pc th) i = true ->
+    exists it, nth_error (s_items s) i = Some it /\ i_mtx it = Some t.
+
+Ltac self_leaf Ht Hpc :=
+  eexists; split;
+  [ first [reflexivity | symmetry; apply upd_id; exact Ht]
+  | let i0 := fresh "i0" in let Hm := fresh "Hm" in intros i0 Hm; simpl in Hm; try discriminate Hm;
+    try (exfalso; rewrite Hpc in Hm; simpl in Hm; discriminate Hm);
+    try (left; split; [rewrite Hpc in Hm; exact Hm | right; reflexivity]) ].
+
+Ltac stay Hpc := try (left; split; [simpl; assumption | left; intros ?; discriminate]).
+
+Lemma step_self s t r th : step s t = Some r -> nth_error (s_thr s) t = Some th ->
+  exists th', s_thr (r_st r) = upd (s_thr s) t th' /\
+    forall i, pc_in_mtx (t_pc th') i = true ->
+      (pc_in_mtx (t_pc th) i = true /\ ((forall j, t_pc th <> PAcqUnlock j) \/ s_items (r_st r) = s_items s)) \/
+      (exists it', nth_error (s_items (r_st r)) i = Some it' /\ i_mtx it' = Some t).
+Proof.
+  intros E Ht. unfold step, get_thr in E. rewrite Ht in E.
+  destruct (t_pc th) eqn:Hpc.
+  - destruct (t_prog th) as [|o rest]; [discriminate|]. destruct o.
+    + injection E as <-. self_leaf Ht Hpc.
+    + destruct (nth_error (t_h th) h) as [[[?|] [|]]|]; injection E as <-; self_leaf Ht Hpc.
+    + injection E as <-. self_leaf Ht Hpc.
+    + injection E as <-. self_leaf Ht Hpc.
+    + injection E as <-. self_leaf Ht Hpc.
+  - destruct (find_key (s_items s) (s_set s) k) as [i|] eqn:F; cbv beta iota zeta in E; unfold with_item in E; simpl in E.
+    + destruct (nth_error (s_items s) i) as [it|] eqn:Hn; [destruct (i_live it)|]; try (injection E as <-; self_leaf Ht Hpc).
+      destruct (i_recycle it); injection E as <-; self_leaf Ht Hpc.
+    + rewrite nth_app_new in E. simpl in E. injection E as <-. self_leaf Ht Hpc.
+  - destruct (mem_id t (s_blockq s)); [discriminate|]. injection E as <-. self_leaf Ht Hpc.
+  - unfold with_item in E. destruct (nth_error (s_items s) i) as [it|] eqn:Hn; [destruct (i_live it)|]; try (injection E as <-; self_leaf Ht Hpc).
+    destruct (i_mtx it) eqn:Em; [destruct n|]; injection E as <-; self_leaf Ht Hpc.
+    right. apply Nat.eqb_eq in Hm. subst i0. eexists. split; [simpl; eapply nth_upd_same; eauto | reflexivity].
+  - unfold with_item in E. destruct (nth_error (s_items s) i) as [it|] eqn:Hn; [destruct (i_live it)|]; try (injection E as <-; self_leaf Ht Hpc).
+    destruct (i_mtx it) eqn:Em; injection E as <-; self_leaf Ht Hpc.
+    right. apply Nat.eqb_eq in Hm. subst i0. eexists. split; [simpl; eapply nth_upd_same; eauto | reflexivity].
+  - unfold with_item in E. destruct (nth_error (s_items s) i) as [it|] eqn:Hn; [destruct (i_live it)|]; try (injection E as <-; self_leaf Ht Hpc).
+    destruct (i_mtx it) eqn:Em; [|discriminate]. destruct (Nat.eqb_spec t0 t); [|discriminate]. injection E as <-. self_leaf Ht Hpc.
+    right. apply Nat.eqb_eq in Hm. subst i0. exists it. split; [exact Hn | congruence].
+  - unfold with_item in E. destruct (nth_error (s_items s) i) as [it|] eqn:Hn; [destruct (i_live it)|]; try (injection E as <-; self_leaf Ht Hpc; stay Hpc).
+    destruct (i_obj it); [|destruct (i_failure it <=? sat_sub (s_now s) cd)]; injection E as <-; self_leaf Ht Hpc; stay Hpc.
+  - destruct y.
+    + unfold with_item in E. destruct (nth_error (s_items s) i) as [it|] eqn:Hn; [destruct (i_live it)|]; try (injection E as <-; self_leaf Ht Hpc; stay Hpc).
+      destruct ok; injection E as <-; self_leaf Ht Hpc; stay Hpc.
+    + injection E as <-. self_leaf Ht Hpc. stay Hpc.
+  - unfold with_item in E. destruct (nth_error (s_items s) i) as [it|] eqn:Hn; [destruct (i_live it)|]; try (injection E as <-; self_leaf Ht Hpc).
+    destruct (i_mq it); injection E as <-; self_leaf Ht Hpc.
+  - unfold with_item in E. destruct (nth_error (s_items s) i) as [it|] eqn:Hn; [destruct (i_live it)|]; try (injection E as <-; self_leaf Ht Hpc).
+    destruct (i_obj it); injection E as <-; self_leaf Ht Hpc.
+  - unfold with_item in E. destruct (nth_error (s_items s) i) as [it|] eqn:Hn; [destruct (i_live it)|]; try (injection E as <-; self_leaf Ht Hpc).
+    cbv beta iota zeta in E.
+    destruct (i_recycle it) eqn:Ci; [|destruct recycle]; simpl in E;
+      destruct (i_ref it - 1 =? 0); rewrite ?Ci in E; simpl in E; try destruct (i_semwait it); injection E as <-; self_leaf Ht Hpc.
+  - unfold with_item in E. destruct (nth_error (s_items s) i) as [it|] eqn:Hn; [destruct (i_live it)|]; try (injection E as <-; self_leaf Ht Hpc).
+    destruct (1 <=? i_sem it); injection E as <-; self_leaf Ht Hpc.
+  - unfold with_item in E. destruct (nth_error (s_items s) i) as [it|] eqn:Hn; [destruct (i_live it)|]; try (injection E as <-; self_leaf Ht Hpc).
+    destruct (i_semwait it); [discriminate|]. injection E as <-. self_leaf Ht Hpc.
+  - unfold with_item in E. destruct (nth_error (s_items s) i) as [it|] eqn:Hn; [destruct (i_live it)|]; injection E as <-; self_leaf Ht Hpc.
+  - unfold with_item in E. destruct (nth_error (s_items s) i) as [it|] eqn:Hn; [destruct (i_live it)|]; try (injection E as <-; self_leaf Ht Hpc).
+    destruct destroy; injection E as <-.
+    + eexists. split. { cbn [r_st]. unfold set_pc, set_thr. cbn [s_thr]. rewrite (proj1 (proj2 (proj2 (proj2 (delete_item_fields s t i it))))). reflexivity. }
+      intros i0 Hm; simpl in Hm; discriminate Hm.
+    + destruct (i_obj it) eqn:Eo;
+        (eexists; split; [cbn [r_st]; unfold set_pc, set_thr; cbn [s_thr];
+                          rewrite (proj1 (proj2 (proj2 (proj2 (delete_item_fields _ t i (it_obj it None)))))); reflexivity
+                         | intros i0 Hm; simpl in Hm; discriminate Hm]).
+  - destruct (s_blockq s); injection E as <-; self_leaf Ht Hpc.
+  - destruct (exp_split (s_items s) (s_now s) (s_numlimit s) (s_list s) (s_set s)) as [[zs l'] set'].
+    injection E as <-. self_leaf Ht Hpc.
+  - destruct zs as [|z zs'].
+    + unfold finish in E. destruct kt as [r0|ret [|]|]; injection E as <-; self_leaf Ht Hpc.
+    + unfold with_item in E. destruct (nth_error (s_items s) z) as [it|] eqn:Hn; [destruct (i_live it)|]; try (injection E as <-; self_leaf Ht Hpc).
+      injection E as <-. eexists. split. { cbn [r_st]. unfold set_pc, set_thr. cbn [s_thr]. rewrite (proj1 (proj2 (proj2 (proj2 (delete_item_fields s t z it))))). reflexivity. }
+      intros i0 Hm; simpl in Hm; discriminate Hm.
+Qed.
+
+Lemma minv_step s t r : MInv s -> step s t = Some r -> MInv (r_st r).
+Proof.
+  intros M E. pose proof (step_mtx s t r E) as MR.
+  destruct (nth_error (s_thr s) t) as [th|] eqn:Ht.
+  2:{ unfold step, get_thr in E. rewrite Ht in E. discriminate. }
+  destruct (step_self s t r th E Ht) as [th' [Hthr Hself]].
+  intros t' x i Hn Hp. rewrite Hthr, (nth_upd _ _ _ _ _ Ht) in Hn. destruct (Nat.eqb_spec t t').
+  - subst t'. inversion Hn; subst x. destruct (Hself i Hp) as [[Hp0 Hc]|Hr]; auto.
+    destruct (M t th i Ht Hp0) as [it [Hi Hm]]. destruct (MR i it Hi) as [it' [Hi' [Hs|[Hs|[th0 [Ht0 Hu]]]]]].
+    + exists it'. split; auto. congruence.
+    + congruence.
+    + destruct Hc as [Hc|Hc].
+      * exfalso. assert (th0 = th) by congruence. subst. eapply Hc; eauto.
+      * exists it. rewrite Hc. auto.
+  - destruct (M t' x i Hn Hp) as [it [Hi Hm]]. destruct (MR i it Hi) as [it' [Hi' [Hs|[Hs|[th0 [Ht0 Hu]]]]]].
+    + exists it'. split; auto. congruence.
+    + congruence.
+    + exfalso. destruct (M t th0 i Ht0) as [it2 [Hi2 Hm2]]. { rewrite Hu. simpl. apply Nat.eqb_refl. }
+      congruence.
+Qed.
+
+Lemma minv_init now life lim progs : MInv (init_state now life lim progs).
+Proof.
+  intros t th i Hn Hp. simpl in Hn. apply nth_error_In in Hn. apply in_map_iff in Hn. destruct Hn as [p [<- _]]. discriminate.
+Qed.
+
+Lemma reachable_minv now life lim progs s : reachable (init_state now life lim progs) s -> MInv s.
+Proof. induction 1. - apply minv_init. - eapply minv_step; eauto. Qed.
+
+(* the constructor (and the whole `_mtx` section :109-115) of one key is executed by at most one thread at a time *)
+Lemma ctor_exclusive now life lim progs s t1 t2 th1 th2 i1 i2 it1 it2 :
+  reachable (init_state now life lim progs) s ->
+  nth_error (s_thr s) t1 = Some th1 -> nth_error (s_thr s) t2 = Some th2 ->
+  pc_in_mtx (t_pc th1) i1 = true -> pc_in_mtx (t_pc th2) i2 = true ->
+  nth_error (s_items s) i1 = Some it1 -> nth_error (s_items s) i2 = Some it2 -> i_key it1 = i_key it2 -> t1 = t2.
+Proof.
+  intros R H1 H2 P1 P2 N1 N2 K.
+  assert (i1 = i2).
+  { eapply (one_object_per_key now life lim progs s t1 t2 i1 i2 it1 it2 R); eauto.
+    - exists th1. split; auto. unfold holds. destruct (t_pc th1); simpl in P1; try discriminate; simpl; rewrite P1; lia.
+    - exists th2. split; auto. unfold holds. destruct (t_pc th2); simpl in P2; try discriminate; simpl; rewrite P2; lia. }
+  subst i2. pose proof (reachable_minv _ _ _ _ _ R) as M.
+  destruct (M t1 th1 i1 H1 P1) as [x [Hx Mx]]. destruct (M t2 th2 i1 H2 P2) as [y [Hy My]]. congruence.
+Qed.
+
+Example ex_in_ctor : exists th, nth_error (s_thr (ex_state 6)) 0%nat = Some th /\ pc_in_mtx (t_pc th) 0%nat = true.
+Proof. vm_compute. eexists. split; reflexivity. Qed.
